@@ -192,7 +192,7 @@ def step(ctx, w, ev, hist, check):
             return good
         if v == "bad":
             ctx.outcome("invalid-rejected")
-            ctx.nontriv((w.kind, "invalid", a))
+            ctx.nontriv((w.kind, "invalid", a, repr(canon(w))))
             if exc is None:
                 bad("invalid-accepted", "invalid value accepted through "
                     "deferring attribute %s" % a)
@@ -210,7 +210,7 @@ def step(ctx, w, ev, hist, check):
             else:
                 w.L[a] = v
                 ctx.outcome("prototype-local-write")
-            ctx.nontriv((w.kind, "write", a, v))
+            ctx.nontriv((w.kind, "write", a, v, repr(canon(w))))
     elif k == "del_child":
         a = ev[1]
         try:
@@ -220,7 +220,7 @@ def step(ctx, w, ev, hist, check):
             return good
         w.L.pop(a, None)
         ctx.outcome("link-restored")
-        ctx.nontriv((w.kind, "del", a))
+        ctx.nontriv((w.kind, "del", a, repr(canon(w))))
     elif k == "set_parent":
         i, tgt, v = ev[1], ev[2], ev[3]
         old = w.P[i][tgt]
@@ -235,7 +235,7 @@ def step(ctx, w, ev, hist, check):
                 got = w.calls[(a, mech)]
                 if changed and linked:
                     ctx.outcome("linked-notified")
-                    ctx.nontriv((w.kind, "notify", a, mech))
+                    ctx.nontriv((w.kind, "notify", a, mech, repr(canon(w))))
                     if not got:
                         bad("not-forwarded:%s:%s" % (a, mech), "parent.%s "
                             "changed to %r on the current delegate but the "
@@ -257,7 +257,7 @@ def step(ctx, w, ev, hist, check):
     elif k == "swap":
         c.parent = w.parents[ev[1]]
         w.cur = ev[1]
-        ctx.nontriv((w.kind, "swap", ev[1]))
+        ctx.nontriv((w.kind, "swap", ev[1], repr(canon(w))))
     # ---- read-back: everything equals the model
     cur = w.parents[w.cur]
     for i, p in enumerate(w.parents):
